@@ -74,7 +74,7 @@ def v1(ctx):
         t = b.blocks[sb]["term"]
         r = b.role_of_operand(t["discr"])
         if r == ("discr", ("param", "pattern")):
-            adt = crate.adts.get("rewrite::pattern::Pattern")
+            adt = crate.adt_named("rewrite::pattern::Pattern")
             idx = [v["name"] for v in adt["variants"]].index("PVar")
             pv_edges += C.variant_edges(b, sb, idx, nvariants=len(adt["variants"]))
     if not pv_edges:
@@ -260,7 +260,7 @@ def v5(ctx):
     entries = [fn(crate, "ematch_all", "rewrite/ematch.rs"), fn(crate, "multi_ematch", "rewrite/multipat.rs")]
     readonly_closure(ctx, crate, entries, "ro")
     # searcher closures get &EGraph by type
-    rw = crate.adts.get("rewrite::Rewrite")
+    rw = crate.adt_named("rewrite::Rewrite")
     if rw is None:
         raise mir.AnchorMissing("rewrite::Rewrite")
     f = {x["name"]: x["ty"] for x in rw["variants"][0]["fields"]}
